@@ -319,15 +319,49 @@ def replay_long_variable(ctx, case):
     ctx.shard, ctx.nshards = saved
 
 
+def empty_capable_probes(ctx, ws):
+    """Rules that can match the empty sequence AND real instructions (an optional element as the first alternative of an $or, an optional
+    element followed by a required one): the scan still reports every instruction that starts a match - between two reported
+    matches no instruction starts one. Only the non-empty elements of the result are judged (what a scan reports for the empty
+    matches in between is not fixed by the statement). By construction, identical at every seed."""
+    from jv import listing as L
+    rows = ["nop", "ret", "nop", "push", "ret", "ret", "nop", "push", "push", "nop"]
+    insts, addr = [], 0x401000
+    for m in rows:
+        insts.append(L.SInst(addr, m, ["%rax"] if m == "push" else [], None, None, 1))
+        addr += 1
+    lp = ws.write("empty_capable.s", L.render(insts, ctx.rng, labels=False))
+    A = lambda k: format(0x401000 + k, "x")     # noqa: E731
+    cases = [([{"$or": [{"push": {"times": {"min": 0, "max": 1}}}, "ret"]}], [A(1), A(3), A(4), A(5), A(7), A(8)]),
+             ([{"$or": [{"zzz": {"times": {"min": 0, "max": 1}}}, "ret"]}], [A(1), A(4), A(5)]),
+             ([{"$or": ["ret", {"push": {"times": {"min": 0, "max": 2}}}]}], [A(1), A(3), A(4), A(5), A(7)]),
+             ([{"push": {"times": {"min": 0, "max": 2}}}], [A(3), A(7)]),
+             ([{"$or": [{"nop": {"times": {"min": 0, "max": 1}}}, {"$and": ["push", "ret"]}]}], [A(0), A(2), A(3), A(6), A(9)])]
+    for pat, want in cases:
+        rule = real.dump_rule({"config": {"mnemonics-full-match": True}, "pattern": pat})
+        r = real.match(ws.write("empty_capable.yaml", rule), lp, ret="list", search="all", only_addr=True)
+        ctx.ran()
+        ctx.event("empty_capable_rule_probes")
+        got = [a for a in (r[1] if r[0] == "ok" else []) if a != ""]
+        ctx.case(("empty-capable", rule), True, stratum="rules that also match the empty sequence", outcome="found" if got else "not found")
+        if r[0] != "ok" or got != want:
+            ctx.disagreement({"empty_capable": True, "rule": rule},
+                             f"a rule that also matches the empty sequence: the non-empty findings start at {got[:10]}, the instructions that start a match are {want} (result {str(r[:2])[:120]})")
+
+
 def run_shard(ctx):
     d = drive.Driver(ctx, feat, flags="random", styles=("runs", "runs", "tiny", "mixed", "multisec", "kernel"), judge_model=False, extra=monitor)
     d.loop(2500, 250000)
     long_listing_stratum(ctx, d.ws, ctx.share(48, 800))
     long_variable_stratum(ctx, d.ws, ctx.share(32, 600))
     gap_and_range_stratum(ctx, d.ws, ctx.share(160, 8000))
+    if ctx.shard == 1 % ctx.nshards:
+        empty_capable_probes(ctx, d.ws)
 
 
 def replay(ctx, case):
+    if case.get("empty_capable"):
+        return empty_capable_probes(ctx, real.Workspace())
     ws = real.Workspace()
     if case.get("long_listing"):
         long_listing_stratum(ctx, ws, 8)
